@@ -81,6 +81,33 @@ class Server:
         return hashlib.sha256(h.encode()).hexdigest() if h else None
 
 
+def make_chain_headers(server, enabled):
+    """the wallet's validated header chain as far as SPV needs it: the real Headers class with its length and per-height
+    lookup taken from the driver's chain - one transaction per block, so the block's Merkle root is the txid and the proof
+    is the empty branch (header validation itself is C07's subject, proofs are C08's)"""
+    from lbry.wallet import Headers
+
+    class ChainHeaders(Headers):
+        def __bool__(self):
+            return True
+
+        def __len__(self):
+            if not enabled:
+                return 0
+            return max([t['height'] for t in server.txs] + [0]) + 1
+
+        @property
+        def height(self):
+            return len(self) - 1
+
+        async def get(self, height):
+            for t in server.txs:
+                if t['height'] == height:
+                    return {'merkle_root': t['tx'].id.encode(), 'block_height': height, 'timestamp': 1_600_000_000 + height}
+            return {'merkle_root': b'00' * 32, 'block_height': height, 'timestamp': 1_600_000_000 + height}
+    return ChainHeaders(':memory:')
+
+
 class FakeNet:
     is_connected = True
     client = None
@@ -147,8 +174,11 @@ class World:
         self.server = Server()
         self.net = FakeNet(self.loop, self.server)
         self.gap = gap
+        # in most worlds the wallet holds the headers, so confirmed transactions verify (as on a real network)
+        self.verifying = rng.random() < 0.7
         with self.loop:
-            self.ledger = Ledger({'db': Database(os.path.join(self.dir, 'blockchain.db')), 'headers': Headers(':memory:'), 'network': self.net})
+            self.ledger = Ledger({'db': Database(os.path.join(self.dir, 'blockchain.db')), 'headers': make_chain_headers(self.server, self.verifying),
+                                  'network': self.net})
         self._drain_all(lambda: self.loop.spawn(self.ledger.db.open()))
         self._drain_all(lambda: self.loop.spawn(self.ledger.headers.open()))
         with self.loop:
